@@ -2,6 +2,7 @@ CONSTANTS
   N = 1
   MaxTasks = 1
   G = 2
+  Stops = 1
   Dev = {"RestartSharesHandles"}
 SPECIFICATION Spec
 CHECK_DEADLOCK FALSE
